@@ -147,6 +147,47 @@ pub fn check_case(cfg: &Config, corpus: &Corpus, evals: &[(Vec<char>, Vec<u8>)])
     for (tok, cat, cls, f, w) in &trace.tag_weights {
         weight.insert((tok.clone(), *cat, *cls, f.clone()), *w);
     }
+    // clause 2b: the learner saw exactly the documented tag features: for every trainable category
+    // of every token, the features known to the classifier are the union, over the corpus
+    // occurrences of the token that carry a tag in that category, of the n-grams containing the
+    // token plus 1..N further characters (relative position = characters past the token end)
+    {
+        use std::collections::BTreeSet as Set;
+        let mut seen_feats: HashMap<(String, usize), Set<VerifFeature>> = HashMap::new();
+        for (tok, cat, _cls, f, _w) in &trace.tag_weights {
+            seen_feats.entry((tok.clone(), *cat)).or_default().insert(f.clone());
+        }
+        let mut want_feats: HashMap<(String, usize), Set<VerifFeature>> = HashMap::new();
+        for l in &corpus.lines {
+            let sent = parse_line(l);
+            let labels: Vec<u8> = sent.boundaries().iter().map(|&b| b as u8).collect();
+            let text: Vec<char> = sent.as_raw_text().chars().collect();
+            let n_tags = sent.n_tags();
+            for (a, b) in ref_tokens(&labels) {
+                let surf: String = text[a..b].iter().collect();
+                for j in 0..n_tags {
+                    if sent.tags()[(b - 1) * n_tags + j].is_some() {
+                        want_feats.entry((surf.clone(), j)).or_default().extend(ref_tag_features(cfg, &text, a, b));
+                    }
+                }
+            }
+        }
+        for tm in &spec.tag_models {
+            for (j, cat) in tm.tags.iter().enumerate() {
+                if cat.len() < 2 {
+                    continue;
+                }
+                let key = (tm.token.clone(), j);
+                let got = seen_feats.get(&key).cloned().unwrap_or_default();
+                let want = want_feats.get(&key).cloned().unwrap_or_default();
+                if got != want {
+                    let missing: Vec<_> = want.difference(&got).collect();
+                    let extra: Vec<_> = got.difference(&want).collect();
+                    return (true, Some(("tag-feature-set".into(), format!("token {:?} category {j}: the tag classifier was trained without {missing:?} and with unexpected {extra:?}", tm.token))));
+                }
+            }
+        }
+    }
     // clause 3: behaviour on evaluation sentences (boundaries forced)
     let mut pred = match guard(|| Predictor::new(model, true)) {
         Err(p) => return (true, Some(("predictor-panic".into(), p))),
@@ -324,13 +365,25 @@ pub fn replay(c: &Value) -> Option<(String, String)> {
     let cfg: Config = serde_json::from_value(c["cfg"].clone()).ok()?;
     let corpus: Corpus = serde_json::from_value(c["corpus"].clone()).ok()?;
     let ev = evals();
-    (0..8).find_map(|_| check_case(&cfg, &corpus, &ev).1).map(|(k, w)| (sig(&k, &cfg, &corpus), w))
+    // training is randomised: look (up to 8 trainings) for the recorded kind of violation first
+    let stored = c["kind"].as_str().unwrap_or("").to_string();
+    let mut last = None;
+    for _ in 0..8 {
+        if let Some((k, w)) = check_case(&cfg, &corpus, &ev).1 {
+            if k == stored {
+                return Some((sig(&k, &cfg, &corpus), w));
+            }
+            last = Some((sig(&k, &cfg, &corpus), w));
+        }
+    }
+    last
 }
 
 pub fn run(tier: Tier) -> ! {
     let chk = Check::new("C12", tier, "exploration");
     quiet_panics();
     mute_stdout();
+    chk.randomised.store(true, std::sync::atomic::Ordering::Relaxed);
     let cfgs = configs(tier);
     let cps = corpora(tier);
     let ev = evals();
@@ -351,7 +404,7 @@ pub fn run(tier: Tier) -> ! {
                 chk.nontrivial(1);
             }
             if let Some((k, what)) = v {
-                chk.violation(sig(&k, cfg, corpus), what, json!({"cfg": cfg, "corpus": corpus}));
+                chk.violation(sig(&k, cfg, corpus), what, json!({"cfg": cfg, "corpus": corpus, "kind": k}));
             }
         }
     });
